@@ -320,6 +320,34 @@ Definition k2_cond (f : facts) : bool :=
   is_person (f_type f) && batchable f && negb (f_norm f && f_norm_err f)
   && negb (f_sender_sys f) && negb (f_device_sys f) && f_decode_err f.
 
+(* C36-K3: the property text asks for "disbanded channels first"; the code reports the sender's
+   SendBan (any non-system uid) or the group's Ban before Disband.  [sig_k3 f reason err]: the
+   command is checked, its target is disbanded, and the reported reason is one of the two
+   shadowing reasons, produced by a check the sender is not exempt from. *)
+(* the command is checked at all, and its channel id could be normalised *)
+Definition checked (f : facts) : bool :=
+  negb (permission_free f) && negb (is_person (f_type f) && f_norm f && f_norm_err f).
+
+(* the target channel's permission record was read, found, and has Disband != 0 *)
+Definition target_disbanded (f : facts) : bool :=
+  negb (r_err (f_target f)) && r_found (f_target f) && r_disband (f_target f).
+
+Definition sig_k3 (f : facts) (reason err : N) : bool :=
+  checked f && target_disbanded f && (err =? 0)
+  && (((reason =? ReasonSendBan) && negb (f_sender_sys f))
+      || ((reason =? ReasonBan) && match f_type f with TGroup => true | _ => false end
+          && negb (f_sender_sys f) && negb (f_device_sys f))).
+
+(* an earlier check of the existing order fails: the sender's row (read error / SendBan) for a
+   non-system uid, or the group's Ban for a sender that is neither system uid nor system device *)
+Definition shadowed (f : facts) : bool :=
+  (negb (f_sender_sys f) && (r_err (f_sender f) || (r_found (f_sender f) && r_sendban (f_sender f))))
+  || (match f_type f with TGroup => true | _ => false end
+      && negb (f_sender_sys f) && negb (f_device_sys f) && r_ban (f_target f)).
+
+Definition k3_cond (f : facts) : bool :=
+  sig_k3 f (fst (decide_single f)) (errc_code (snd (decide_single f))).
+
 (* ---- the declarative precedence table (property text: "fixed precedence") -------------
    [(fails, verdict)] in order; the decision is the verdict of the first failing check. *)
 
@@ -833,7 +861,9 @@ Definition C36_mismatch (c : c36_case) : bool :=
    (c) the batch paths report the same as path 0 — except on the two known divergences:
        code 2 (C36-K1): the permission channel id still ends in the command suffix;
        code 3 (C36-K2): person channel id that cannot be decoded while an earlier check of the
-                        per-send order fails (the batch path reports the decode error first). *)
+                        per-send order fails (the batch path reports the decode error first);
+   (d) code 4 (C36-K3): all paths agree, but the target is disbanded and the reason is SendBan or
+       Ban: the order that exists is not the "disbanded first" of the property text. *)
 
 Definition spec_obs (rd : reader) (cfg : pcfg) (cmd : pcmd) : obs :=
   obs_of (single_out cmd, spec_decision (facts_single rd cfg cmd)).
@@ -852,7 +882,8 @@ Definition sig_k2 (rd : reader) (cfg : pcfg) (cmd : pcmd) (o0 ob : obs) : bool :
 
 Definition nth_obs (os : list obs) (i : nat) : option obs := nth_error os i.
 
-(* verdict for item [i]: 0 ok, 1 violation, 2 / 3 known divergence *)
+(* verdict for item [i]: 0 ok, 1 violation, 2 / 3 known divergence of the batch paths,
+   4 all paths agree on SendBan / Ban for a disbanded target (C36-K3) *)
 Definition item_code (c : c36_case) (rd : reader) (i : nat) (cmd : pcmd) : N :=
   match path_obs c 0 with
   | None => 1
@@ -879,7 +910,10 @@ Definition item_code (c : c36_case) (rd : reader) (i : nat) (cmd : pcmd) : N :=
           | None => 1
           end in
         let a := batch_code 4 in let b := batch_code 5 in
-        if (a =? 1) || (b =? 1) then 1 else N.max a b
+        if (a =? 1) || (b =? 1) then 1
+        else if 0 <? N.max a b then N.max a b
+        else if sig_k3 (facts_single rd (k_cfg c) cmd) (o_reason o0) (o_err o0) then 4
+        else 0
     end
   end.
 
@@ -901,6 +935,7 @@ Definition C36_monitor (c : c36_case) : N :=
   if existsb (N.eqb 1) codes then 1
   else if existsb (N.eqb 2) codes then 2
   else if existsb (N.eqb 3) codes then 3
+  else if existsb (N.eqb 4) codes then 4
   else 0.
 
 (* ---- vocabulary of the monitor theorem ------------------------------------------------------------ *)
@@ -913,6 +948,7 @@ Definition model_case (cfg : pcfg) (tbl : list (pread * rresult)) (items : list 
 Definition single_obs (cfg : pcfg) (tbl : list (pread * rresult)) (items : list pcmd) : list obs :=
   map (fun cmd => obs_of (single_outcome (table_reader tbl) cfg cmd)) items.
 
-(* no item of the batch falls under C36-K1 or C36-K2 *)
+(* no item of the batch falls under C36-K1, C36-K2 or C36-K3 *)
 Definition no_divergence (cfg : pcfg) (tbl : list (pread * rresult)) (items : list pcmd) : bool :=
-  forallb (fun c => negb (sig_k1 c) && negb (k2_cond (facts_single (table_reader tbl) cfg c))) items.
+  forallb (fun c => let f := facts_single (table_reader tbl) cfg c in
+                    negb (sig_k1 c) && negb (k2_cond f) && negb (k3_cond f)) items.
